@@ -33,7 +33,7 @@ import (
 
 func init() {
 	evid.Register(&evid.Check{ID: "C11", Level: "exploration", Run: run,
-		QuickBudget: 150 * time.Second, ThoroughBudget: 18 * time.Minute})
+		QuickBudget: 300 * time.Second, ThoroughBudget: 25 * time.Minute})
 }
 
 // caseInfo is what gets written to a replay / sample.
@@ -1019,25 +1019,39 @@ func (rn *runner) selectBuild(s *wsState, sel selection, idx int, small bool) {
 				fmt.Sprintf("selection with targets %v: %s route exits %d: %s", targets, rt.name, rt.out.exit, clip(rt.out.err, 300)), ci)
 			continue
 		}
+		if rt.name == "tar" || rt.name == "zip" {
+			// a packaging of the same tree: must be the image the directory gives (same order too)
+			if src.exit != 0 {
+				continue
+			}
+			kinds, detail := diffImages(src.img, rt.out.img, true)
+			for _, k := range kinds {
+				allOK = false
+				ci.Detail = detail
+				rn.fail("select-build/"+rt.name+"-vs-directory/"+k, rank, shape, nil,
+					fmt.Sprintf("%s input with the same --path/--exclude-path differs from the directory input: %s", rt.name, detail), ci)
+			}
+			continue
+		}
 		kinds, detail := diffImages(want, rt.out.img, false)
 		for _, k := range kinds {
 			allOK = false
 			ci.Detail = detail
 			rn.fail("select-build/"+rt.name+"-route-vs-model/"+k, rank, shape, nil,
-				fmt.Sprintf("%s route differs from the targeting rule (targets %v + import closure as imports): %s", rt.name, targets, detail), ci)
+				fmt.Sprintf("%s route differs from the targeting rule applied to the full image (targets %v + import closure as imports, every file as in the full image): %s", rt.name, targets, detail), ci)
 		}
 		if ok, why := dagOrdered(rt.out.img); !ok {
 			allOK = false
 			rn.fail("select-build/"+rt.name+"-route/file-order", rank, shape, nil, why, ci)
 		}
 	}
-	// the two routes must also agree on the order of files
+	// Order of files: both routes must give a valid DAG order (checked above). Whether they give the *same*
+	// valid order is not demanded (the property speaks of the result, C01 of "every file after the files it
+	// imports"); it is measured, see NOTES.md.
 	if src.exit == 0 {
 		for _, rt := range routes[1:] {
 			if rt.out.exit == 0 && sameStrings(sortedCopy(names(src.img)), sortedCopy(names(rt.out.img))) && !sameStrings(names(src.img), names(rt.out.img)) {
-				allOK = false
-				rn.fail("select-build/routes/file-order-"+rt.name, rank, shape, nil,
-					fmt.Sprintf("source route lists files %v, %s route %v", names(src.img), rt.name, names(rt.out.img)), ci)
+				rn.count("sel_build_valid_but_different_file_order_"+rt.name, 1)
 			}
 		}
 	}
